@@ -145,6 +145,8 @@ type Config struct {
 	PreemptP    float64       // probability of a preemption at each yield (explore mode)
 	Preempt     []int64       // planned preemption yield indices (replay mode; used when Tape.Replay)
 	MaxSteps    int           // hand-off cap
+	MaxTasks    int           // cap on tasks created in one run
+	MaxYields   int64         // cap on yields of one run (a task that never blocks never hands off): livelock detector
 	IdleProbe   time.Duration // how long to let the fake clock run with nothing runnable and no known deadline
 	Quantum     time.Duration // clock step while probing for timers the simulator cannot see
 	Trace       bool          // keep the full textual event log
@@ -174,6 +176,7 @@ type Sim struct {
 
 	Steps     int
 	Capped    bool
+	Livelock  string   // role@function of the task that was running when the yield cap was hit
 	Foreign   []string // baton holder blocked somewhere the simulator does not control
 	idleSpent time.Duration
 	deadlines []time.Time
@@ -206,6 +209,12 @@ func Active() *Sim { return active.Load() }
 // New creates a simulation and makes it the active one. Must be called inside
 // a synctest bubble; Close must be called before the bubble ends.
 func New(cfg Config, tape *Tape) *Sim {
+	if cfg.MaxYields == 0 {
+		cfg.MaxYields = 1000000
+	}
+	if cfg.MaxTasks == 0 {
+		cfg.MaxTasks = 5000
+	}
 	if cfg.MaxSteps == 0 {
 		cfg.MaxSteps = 200000
 	}
@@ -279,6 +288,12 @@ func (s *Sim) EventHash() uint64 { return s.evHash }
 func (s *Sim) NumEvents() int    { return s.nEvents }
 func (s *Sim) Yields() int64     { return s.yieldCount }
 
+// NumTasks returns how many tasks the run has created.
+func (s *Sim) NumTasks() int { return len(s.tasks) }
+
+// Caps returns the hand-off and statement budgets of the run.
+func (s *Sim) Caps() (int, int64) { return s.cfg.MaxSteps, s.cfg.MaxYields }
+
 func (s *Sim) Fault(kind string) { s.Faults[kind]++; s.Event("fault:" + kind) }
 func (s *Sim) Probe(name string) { s.Probes[name]++ }
 
@@ -298,12 +313,31 @@ func Yield(site string) {
 		return
 	}
 	s.yieldCount++
+	if s.yieldCount > s.cfg.MaxYields {
+		s.livelocked(t, site)
+	}
 	if s.yieldCount != s.nextPreempt {
 		return
 	}
 	s.planPreempt()
 	t.site = site
 	s.preemptPark(t)
+}
+
+// livelocked ends the run: the tasks have executed MaxYields statements without the run reaching quiescence
+// (the observed maximum on the unchanged tree is about 10^4). The running task is parked for good.
+func (s *Sim) livelocked(t *Task, site string) {
+	fn := site
+	if i := strings.LastIndexByte(fn, ':'); i > 0 {
+		fn = fn[:i]
+	}
+	s.Capped = true
+	s.Livelock = fn
+	s.Event("livelock " + s.Livelock)
+	t.site = site
+	t.state.Store(stBlockedReal)
+	s.cur = nil
+	select {}
 }
 
 // YieldHot is emitted at yields the rewriter considers interesting (after an
@@ -329,6 +363,9 @@ func YieldHot(site string) {
 		return
 	}
 	s.yieldCount++
+	if s.yieldCount > s.cfg.MaxYields {
+		s.livelocked(t, site)
+	}
 	if s.yieldCount != s.nextPreempt {
 		if s.cfg.HotP <= 0 || s.Tape.Replay || s.cfg.SinglePre > 0 {
 			return
@@ -364,6 +401,9 @@ func Go(site string, fn func()) {
 func (s *Sim) Spawn(role string, fn func()) *Task { return s.spawn(role, false, fn) }
 
 func (s *Sim) spawn(role string, sut bool, fn func()) *Task {
+	if len(s.tasks) >= s.cfg.MaxTasks && s.cur != nil {
+		s.livelocked(s.cur, "creating tasks without end ("+role+"):0")
+	}
 	s.siteCount[role]++
 	t := &Task{ID: len(s.tasks), Role: fmt.Sprintf("%s#%d", role, s.siteCount[role]), resume: make(chan struct{}), SUT: sut, site: "start"}
 	t.state.Store(stRunnable)
@@ -579,6 +619,9 @@ func (s *Sim) Run() Result {
 func (s *Sim) RunUntil(stop func() bool) (quiescent bool) {
 	for {
 		synctest.Wait()
+		if s.Capped {
+			return false
+		}
 		if s.cur != nil {
 			// the baton holder blocked in an operation the simulator does not control
 			s.Foreign = append(s.Foreign, s.cur.String())
